@@ -311,8 +311,10 @@ Section Main.
     - intros kv _ k1 k2. apply lowers_unique, G_lower_nodup.
   Qed.
 
-  Theorem decode_built :
+  Theorem decode_built_strong :
     exists h, decode url_of (build_packet start hs) local_tok a remote_tok now = Ok (start, h) /\
+              C16.Proofs.Inv str_eqb lower h /\
+              (forall lk, hget h lk = dget str_eqb (expected url_of hs local_tok a remote_tok now) lk) /\
               Permutation (b_as_lower str_eqb lower h) (expected url_of hs local_tok a remote_tok now).
   Proof.
     unfold decode, cached_decode. rewrite (header_parse_built start hs Hstart (hd_props _ D)).
@@ -328,45 +330,56 @@ Section Main.
     destruct (b_combine_lower str_eqb b0 meta4) as [h|]; [|contradiction]. unfold Sim.opt_rel in R1. cbv beta iota in R1.
     exists h. split; [reflexivity|].
     set (sF := s_writes str_eqb lower (s_writes str_eqb lower [] items0) meta4) in *.
+    assert (Hpt : forall lk, dget str_eqb (s_as_lower sF) lk =
+                             dget str_eqb (expected url_of hs local_tok a remote_tok now) lk).
+    {
+        intros lk. rewrite expected_is, (s_as_lower_get str_eqb). unfold sF.
+        rewrite !(s_writes_get str_eqb KS lower). cbn [dget]. rewrite LW_items0, (LW_G hs lk).
+        rewrite (dget_app str_eqb), (dget_folded hs D).
+        destruct (sent hs lk) as [[k v]|] eqn:Es.
+        + destruct (sent_Some hs lk k v Es) as [Hin Hlk]. pose proof (hd_plain _ D _ Hin) as Hpl.
+          cbn [fst] in Hpl. rewrite Hlk in Hpl.
+          destruct (meta_nonmeta vh vts vra vp vla vlo vlc up up_shape hl lk Hpl) as [M1 M2].
+          unfold meta4. rewrite M1, M2. cbn [fst snd]. rewrite Hlk.
+          destruct (KS k_location lk) as [<-|Hne].
+          * replace (str_eqb k_location k_location) with true by (symmetry; destruct (KS k_location k_location); congruence).
+            cbn [andb]. destruct hl eqn:Ehl; cbn [snd]; [|reflexivity].
+            unfold vlc, loc. rewrite (md_get_sent hs D), Es. reflexivity.
+          * assert (E2 : str_eqb lk k_location = false) by (destruct (KS lk k_location); congruence).
+            rewrite E2. reflexivity.
+        + assert (Hloc : str_eqb k_location lk = false \/ hl = false).
+          { destruct (KS k_location lk) as [<-|]; [right|now left].
+            unfold hl, loc. rewrite (md_get_sent hs D), Es. reflexivity. }
+          destruct Hloc as [Hloc|Hhl].
+          * pose proof (meta_lookup vh vts vra vp vla vlo vlc up up_shape hl lk Hloc) as ML.
+            unfold first_some in ML. unfold meta4.
+            destruct (LWs (meta_l vts vra vp vla) lk); [exact ML|].
+            destruct (LWs (extra_l vh vlo vlc up hl) lk); exact ML.
+          * destruct (KS k_location lk) as [<-|Hne].
+            -- rewrite Hhl. unfold meta4, meta_l, extra_l, expected_meta, meta_l, LW.
+               destruct up_shape as [->|[u ->]]; reflexivity.
+            -- assert (Hloc : str_eqb k_location lk = false) by (destruct (KS k_location lk); congruence).
+               pose proof (meta_lookup vh vts vra vp vla vlo vlc up up_shape hl lk Hloc) as ML.
+               unfold first_some in ML. unfold meta4.
+               destruct (LWs (meta_l vts vra vp vla) lk); [exact ML|].
+               destruct (LWs (extra_l vh vlo vlc up hl) lk); exact ML. }
+    split; [apply R1|]. split.
+    { intros lk. unfold hget. rewrite (H_get_lower_body lk R1). unfold s_get_lower.
+      rewrite <- Hpt, (s_as_lower_get str_eqb). reflexivity. }
     rewrite (H_as_lower_body KS R1). destruct R1 as [_ [HsF _]].
-    rewrite expected_is. apply perm_of_dget.
+    apply perm_of_dget; [| |exact Hpt].
     - rewrite (s_as_lower_keys sF). apply HsF.
     - (* expected keys distinct *)
-      unfold dkeys. rewrite map_app, map_map. cbn [fst]. apply NoDup_app_intro.
+      rewrite expected_is. unfold dkeys. rewrite map_app, map_map. cbn [fst]. apply NoDup_app_intro.
       + apply D.
       + apply (expected_meta_nodup vh vts vra vp vla vlo up up_shape hl).
       + intros k Hk1 Hk2. apply in_map_iff in Hk1 as [kv [<- Hin]].
         apply (expected_meta_keys vh vts vra vp vla vlo up up_shape hl) in Hk2.
         rewrite (hd_plain _ D _ Hin) in Hk2. discriminate.
-    - intros lk. rewrite (s_as_lower_get str_eqb). unfold sF.
-      rewrite !(s_writes_get str_eqb KS lower). cbn [dget]. rewrite LW_items0, (LW_G hs lk).
-      rewrite (dget_app str_eqb), (dget_folded hs D).
-      destruct (sent hs lk) as [[k v]|] eqn:Es.
-      + destruct (sent_Some hs lk k v Es) as [Hin Hlk]. pose proof (hd_plain _ D _ Hin) as Hpl.
-        cbn [fst] in Hpl. rewrite Hlk in Hpl.
-        destruct (meta_nonmeta vh vts vra vp vla vlo vlc up up_shape hl lk Hpl) as [M1 M2].
-        unfold meta4. rewrite M1, M2. cbn [fst snd]. rewrite Hlk.
-        destruct (KS k_location lk) as [<-|Hne].
-        * replace (str_eqb k_location k_location) with true by (symmetry; destruct (KS k_location k_location); congruence).
-          cbn [andb]. destruct hl eqn:Ehl; cbn [snd]; [|reflexivity].
-          unfold vlc, loc. rewrite (md_get_sent hs D), Es. reflexivity.
-        * assert (E2 : str_eqb lk k_location = false) by (destruct (KS lk k_location); congruence).
-          rewrite E2. reflexivity.
-      + assert (Hloc : str_eqb k_location lk = false \/ hl = false).
-        { destruct (KS k_location lk) as [<-|]; [right|now left].
-          unfold hl, loc. rewrite (md_get_sent hs D), Es. reflexivity. }
-        destruct Hloc as [Hloc|Hhl].
-        * pose proof (meta_lookup vh vts vra vp vla vlo vlc up up_shape hl lk Hloc) as ML.
-          unfold first_some in ML. unfold meta4.
-          destruct (LWs (meta_l vts vra vp vla) lk); [exact ML|].
-          destruct (LWs (extra_l vh vlo vlc up hl) lk); exact ML.
-        * destruct (KS k_location lk) as [<-|Hne].
-          -- rewrite Hhl. unfold meta4, meta_l, extra_l, expected_meta, meta_l, LW.
-             destruct up_shape as [->|[u ->]]; reflexivity.
-          -- assert (Hloc : str_eqb k_location lk = false) by (destruct (KS k_location lk); congruence).
-             pose proof (meta_lookup vh vts vra vp vla vlo vlc up up_shape hl lk Hloc) as ML.
-             unfold first_some in ML. unfold meta4.
-             destruct (LWs (meta_l vts vra vp vla) lk); [exact ML|].
-             destruct (LWs (extra_l vh vlo vlc up hl) lk); exact ML.
   Qed.
+
+  Theorem decode_built :
+    exists h, decode url_of (build_packet start hs) local_tok a remote_tok now = Ok (start, h) /\
+              Permutation (b_as_lower str_eqb lower h) (expected url_of hs local_tok a remote_tok now).
+  Proof. destruct decode_built_strong as [h [E [_ [_ P]]]]. now exists h. Qed.
 End Main.
